@@ -253,6 +253,42 @@ def check_derived(case, R):
     check_on(t, p, R)  # and the original still answers for itself
 
 
+def check_longest_dup(case, R):
+    """ToLongestPath on trees with REPEATED terminal samples (a tip stored at the position of its parent: zero-length final edge, as
+    tracing tools emit when a branch is closed with a double click): the result is a root-to-tip path - it ends at a childless node -
+    of maximal length."""
+    from swcgeom.transforms import ToLongestPath
+
+    p, dup = list(case[0]), [int(i) for i in case[1]]
+    n = len(p)
+    R.state(p, dup)
+    xyz, rad = build.generic_geometry(n, 0)
+    xyz = [tuple(q) for q in xyz]
+    for i in dup:
+        xyz[i] = xyz[p[i]]
+    t = build.make_tree(p, xyz=xyz, r=rad)
+    ch = ref.children(p)
+    paths = ref.root_to_tip_paths(p)
+    lens = {tuple(q): ref.polyline_length([xyz[i] for i in q]) for q in paths}
+    best = max(lens.values())
+    for nm, fn, ids_of in (("ToLongestPath(detach=False)", lambda: ToLongestPath(detach=False)(t), lambda v: [int(i) for i in v.origin_id().tolist()]),):
+        ok, lp = R.impl(nm, fn)
+        if not ok:
+            continue
+        got = tuple(ids_of(lp))
+        R.check(got in lens, "longest-path:not-a-root-to-tip-path", lambda: f"p={p} repeated tips {dup}: {nm} -> nodes {got}; last node has children {ch[got[-1]] if got else None}",
+                "longest-path:not-root-to-tip:repeated-terminal-sample")
+        if got in lens:
+            R.check(lens[got] >= best - 1e-3, "longest-path:not-longest", lambda: f"p={p} repeated tips {dup}: {nm} -> {got} of length {lens[got]}, longest is {best}",
+                    "longest-path:not-longest:repeated-terminal-sample")
+    ok, lp = R.impl("ToLongestPath", lambda: ToLongestPath()(t))
+    if ok:
+        pts = [tuple(float(v) for v in row) for row in lp.xyz().tolist()]
+        R.check(any(pts == [xyz[i] for i in q] for q in lens if lens[q] >= best - 1e-3), "longest-path:not-longest",
+                lambda: f"p={p} repeated tips {dup}: detached longest path has points {pts}", "longest-path:detached:repeated-terminal-sample")
+    R.outcome(len(dup), len(paths))
+
+
 def check_file(case, R):
     """Decomposition invariants on a real reconstruction (reference computed on its parent table)."""
     from swcgeom.core import Tree
@@ -331,7 +367,19 @@ def spaces(tier, seed):
                         yield ("TY", p, None, tuple(ty))
 
     dv_hi = 5 if tier == "quick" else 6
-    out = [Space.of("derived-trees", lambda: ((p, w) for n in range(1, dv_hi + 1) for p in S.labelled_trees(n) for w in build.DERIVATIONS), check_derived,
+    def gen_dup():
+        import itertools
+
+        for n in range(2, (6 if tier == "quick" else 7) + 1):
+            for p in S.sorted_trees(n):
+                tips = [i for i in ref.tips(list(p)) if i != 0]
+                for k in range(1, len(tips) + 1):
+                    for dup in itertools.combinations(tips, k):
+                        yield (p, dup)
+
+    out = [Space.of("longest-path-repeated-tips", gen_dup, check_longest_dup,
+                    bounds={"ST_max_nodes": 6 if tier == "quick" else 7, "repeated": "every non-empty subset of the tips stored at their parent's position"}),
+           Space.of("derived-trees", lambda: ((p, w) for n in range(1, dv_hi + 1) for p in S.labelled_trees(n) for w in build.DERIVATIONS), check_derived,
                     bounds={"LT_max_nodes": dv_hi, "derivations": list(build.DERIVATIONS), "note": "all queries asked of the source tree first"}),
            Space.of("typed-trees", gen_types, check_tree,
                     bounds={"all_type_vectors_over_{1,2,3}_up_to_nodes": ty_full, "patterns_up_to_nodes": ty_hi,
